@@ -194,14 +194,14 @@ Theorem bspline_knot_continuity_eval :
   forall (G T : Type) (op : G -> G -> G) (e : G) (inv : G -> G) (exp : T -> G) (log : G -> T)
          (Ad : G -> T -> T) (br tadd : T -> T -> T) (tzero : T) (smul : Q -> T -> T),
   @Laws G T op e inv exp log Ad br tadd tzero smul ->
-  forall (fixed : bool) (ctrl : list G) (t0 dt t : Q) (i : nat),
+  forall (ctrl : list G) (t0 dt t : Q) (i : nat),
   0 < dt -> (Z.of_nat (length ctrl) <= two63)%Z -> (i + K + 2 <= length ctrl)%nat ->
   t == t0 + inject_Z (Z.of_nat (S i)) * dt ->
-  outputs_upto G T (order_of K) (bs_eval G T op e inv exp log Ad br tadd tzero smul fixed (Bideal K) K ctrl t0 dt t)
+  outputs_upto G T (order_of K) (bs_eval G T op e inv exp log Ad br tadd tzero smul (Bideal K) K ctrl t0 dt t)
   = outputs_upto G T (order_of K)
       (scale G T smul dt (window_eval G T op e inv exp log Ad br tadd tzero smul (Bideal K) K ctrl i 1)).
 Proof.
-  intros K HK G T op e inv exp log Ad br tadd tzero smul L fixed ctrl t0 dt t i Hdt HN Hlen Ht.
+  intros K HK G T op e inv exp log Ad br tadd tzero smul L ctrl t0 dt t i Hdt HN Hlen Ht.
   destruct (knot_shape_all K HK) as [Hs H1].
   now apply (knot_continuity_eval G T op e inv exp log Ad br tadd tzero smul L).
 Qed.
